@@ -62,14 +62,17 @@ RUNTIME_NOTE = ("Partial with respect to the Go runtime: goroutines are interlea
                 "such an operation, the Go memory model and the garbage collector are not modelled. Race-freedom is argued from regenerated syntactic facts "
                 "and observed with the race detector in the thorough tier, not proved.")
 PROPS["C10"] = {
-    "families": ["C10"], "modules": ["C10", "C10b", "C10c", "C10d"],
+    "families": ["C10", "OF"], "ops": "stream,loc", "modules": ["C10", "C10b", "C10c", "C10d"],
     "gen_deps": [],
     "race": True,
     "rule": "real util.MessageStream driven through NewMessageStream with a scripted in-memory connection and a recording parser (or the real "
             "openflow13.Parse): frames of 8..5000 bytes, chunk sizes 1,2,3,4,5,7,n-1,n,n+1,2047,2048 and random, a split at every one of the first 12 "
             "offsets of every frame boundary, every proper prefix of a trailing frame, >50 frames with a slow consumer (buffer recycling), a connection "
             "failure after every byte of a frame; seeded scheduling noise in Read/Parse/consumer. Observed: multiset of delivered frames (re-encoded), "
-            "errors published, buffers torn while owned by a parser, buffers shared by two parsers. Non-trivial = at least one frame delivered.",
+            "errors published, buffers torn while owned by a parser, buffers shared by two parsers. Non-trivial = at least one frame delivered. "
+            "failc: a connection failure on a connection whose Close() reports an error too (the failure must still be published once). "
+            "loc (family OF): every second conformant frame of the independent switch-side encoder (20 kinds) is parsed from two buffers holding different bytes "
+            "behind the frame; message and re-encoding must be identical (frame locality on the implementation).",
     "trivial_outputs": ["frames=- errs=0 torn=0 shared=0", "frames=- errs=1 torn=0 shared=0"],
     "level_text": "Kernel-checked theorems over two models of util.MessageStream's inbound side: (F1) the byte-at-a-time de-framer transcribed from inbound(): any partition of the byte stream into reads gives the same result; for every sequence of well-formed frames followed by a proper prefix of a frame, exactly the complete frames are handed over, intact, once, in order, and the incomplete one is not (induction over bytes, unbounded frame sizes and counts). (F2) a transition system of reader, any number of parser goroutines, consumer, buffer pool, error and shutdown channels with all parameters universally quantified: in every reachable state of every schedule frames are conserved (delivered ⊆ script as multisets; exactly once at quiescence of a failure-free run), buffers are conserved (never in two hands), at most one error is published. Props/C10b.lean (17 theorems) refines this to buffer CONTENTS (Model/Stream/PoolSys: each buffer has an identity and a content, the reader runs the Go loop body byte by byte over any chunking): every buffer in pool.Empty is empty; the reader's buffer holds exactly the received prefix of the current frame; every buffer handed to a parser holds exactly one well-formed frame of the script; the reader is the de-framer (C10b_reader_is_deframer); delivered = script as multisets at quiescence, byte-identical; after a read error nothing but complete frames is delivered and the partial frame never is; every PoolSys run maps to a StreamSys run (refinement), and two negative results: without Reset() before the return to the pool, or with buffers created with a length instead of a capacity, a delivered message is not a frame of the script (C10b_reset_needed, C10b_initial_length_zero_needed). Tie: the real stream is run on chunked scripts under scheduling noise and compared with the de-framer model; ownership violations (torn/shared buffers) are observed directly.",
     "level_note": RUNTIME_NOTE + " The transition system is hand-written from stream.go (channel operations listed in Gen.utilSites); frames still queued in pool.Full when the parsers receive the shutdown signal after a failure are not delivered (allowed by the statement; the check accepts any sub-multiset there).",
